@@ -10,7 +10,11 @@ Two correspondence streams against the Lean models of Model/Plugin.lean and Mode
   constructor / method events with their arguments EXACTLY and in order; every object destroyed at most once, never
   before the model's (earliest possible) release point, never after the release of the last context it was ever held
   in, exactly once at quiescence; no method or destroy on a dead or foreign object (module-side registry + ASan on the
-  object storage)."""
+  object storage). A call whose later argument raises after earlier parameters were bound (`callt`) is an ordinary
+  case: FunctorManager::createEnv hands the callee context back to the function's cache, the bound objects stay in its
+  slots until the context is recycled by the next call of that function (model: destroyed exactly there, before the
+  new parameters are bound) or until the root context is purged / freed (model: destroyed there); an object that is
+  never destroyed, or destroyed before that point, is a VIOLATION."""
 import itertools
 
 from ..core import Case
@@ -139,7 +143,7 @@ class ProgGen:
         if allow_call:
             if k < 0.93:
                 return ("call", v(), r.choice(["F", "H"]) if not in_func else "H", None)
-            if k < 0.96 and not in_func:
+            if k < 0.97 and not in_func:
                 return ("callt", "G", [v()], v())
         return ("id", v())
 
@@ -270,8 +274,10 @@ class C17(VmodCheck):
             "operator=, swap(&), swap(&&)) up to the length bound, plus seeded random longer ones, executed on real "
             "handles of the verification module: create/destroy log equal to the model's, model hazard = crash; "
             "(2) seeded random programs over variables, a table, three functions (typed parameters, locals, nested "
-            "call, error exit), loops, begin/exception blocks, uncaught errors, a call whose last argument raises "
-            "(createEnv), temporaries, followed by clone / second program in the clone / purge / free in random order: "
+            "call, error exit), loops, begin/exception blocks, uncaught errors, a call whose last argument raises after the "
+            "first parameter was bound (createEnv hands the callee context back to the cache: the bound object is released "
+            "when that context is recycled or its root released, never lost), temporaries, followed by clone / second "
+            "program in the clone / purge / free in random order: "
             "constructor and method events with arguments exact and in order; each destroy at most once, not before "
             "the model's earliest release point, not after the release of the last context the object was held in; "
             "exactly once at quiescence; no event on a dead or foreign object; ASan on the object storage; "
@@ -284,10 +290,10 @@ class C17(VmodCheck):
     trusted_base = VmodCheck.trusted_base + ["harness/vmod (event log of the verification module)",
                                              "vlib/props/c17.py render(): BLOC text of each model instruction"]
     EXTRA_FINDINGS = [
-        {"property": "C17", "id": "C17.createEnv_arg_throw_leaks_context", "status": "known",
-         "what": "a call F(a, y.fail(1)) whose later argument raises after an earlier parameter was bound: FunctorManager::createEnv "
-                 "neither caches nor deletes the runtime context, the object bound to the earlier parameter is never destroyed "
-                 "(site: blocc/functor_manager.cpp createEnv)",
+        {"property": "C17", "id": "C17.createEnv_arg_throw_leaks_context", "status": "fixed", "commit": "50ff576",
+         "what": "(repaired) a call F(a, y.fail(1)) whose later argument raises after an earlier parameter was bound: FunctorManager::createEnv "
+                 "neither cached nor deleted the runtime context, the object bound to the earlier parameter was never destroyed "
+                 "(site: blocc/functor_manager.cpp createEnv; the context now goes back to the function's cache)",
          "witness": "import vmod; function g(p1:vmod, p2) return vmod is begin return p1; end; a = vmod(1); y = vmod(2); ct = g(a, y.fail(1));"},
         {"property": "C17", "id": "C17.clone_outlives_origin_uaf", "status": "fixed", "commit": "4769647",
          "what": "a context in which a function was defined is cloned, the original is purged or freed first, then the clone is "
@@ -448,7 +454,10 @@ class C17(VmodCheck):
                     {"family": "obj", "release_seg": release_seg, "nseg": seg, "origin_first": origin_first})
 
     def fixed_obj_cases(self):
-        """the recorded witnesses, replayed on every run"""
+        """fixed programs replayed on every run: the former witnesses w1, w2 of the repaired finding
+        C17.createEnv_arg_throw_leaks_context (now ordinary cases: every object destroyed exactly once, the bound
+        parameter when the callee context is recycled or its root released), the families w5.. that pin down WHEN, a
+        basic tour (w3) and the release order of the repaired finding C17.clone_outlives_origin_uaf (w4)"""
         g = ProgGen(self.rng)
         funcs = [("H", 1, [("ret", "P1")]), ("G", 2, [("cp", "R", "P1"), ("ret", "R")]),
                  ("F", 2, [("cp", "R", "P1"), ("id", "P2"), ("ret", "R")])]
@@ -466,6 +475,32 @@ class C17(VmodCheck):
         out.append(("w3", self.obj_case("w3", g, funcs, script=basic)))
         uaf = [("new", 0), ("prog", 0, [("new", "A", 1)], True), ("clone", 0, 1), ("free", 0), ("free", 1)]
         out.append(("w4", self.obj_case("w4", g, funcs, script=uaf)))
+        # a call whose last argument raises after P1 was bound (the program ends there: a module's error is not caught by
+        # `when others`); `thrown` leaves object #1 referenced by A and by the slot P1 of G's cached runtime context
+        thrown = [("new", "A", 1), ("new", "B", 2), ("callt", "G", ["A"], "B")]
+        # w5: A dropped, then G is called again: the recycled context resets its slots -> #1 destroyed exactly there
+        out.append(("w5", self.obj_case("w5", g, funcs, script=[("new", 0), ("prog", 0, thrown, True),
+                    ("prog", 0, [("nul", "A"), ("id", "B"), ("call", "C", "G", ["B", "B"]), ("id", "C")], False), ("free", 0)])))
+        # w6: A dropped, G never called again: #1 lives until the function table goes (purge), not later
+        out.append(("w6", self.obj_case("w6", g, funcs, script=[("new", 0), ("prog", 0, thrown, True),
+                    ("prog", 0, [("nul", "A"), ("id", "B")], False), ("purge", 0), ("free", 0)])))
+        # w7: the failing call twice in a row (the second recycles the context the first handed back), then a third time
+        # after a successful call; everything else dropped before the release
+        out.append(("w7", self.obj_case("w7", g, funcs, script=[("new", 0), ("prog", 0, thrown, True),
+                    ("prog", 0, [("new", "A", 3), ("callt", "G", ["A"], "B")], False),
+                    ("prog", 0, [("call", "C", "G", ["A", "A"]), ("new", "A", 4), ("callt", "G", ["C"], "B")], False),
+                    ("prog", 0, [("nul", "A"), ("nul", "B"), ("nul", "C")], False), ("free", 0)])))
+        # w8: the cache is per context: a clone does not inherit the cached runtime context (nor what its slots hold);
+        # the failing call in the clone, the origin released first
+        out.append(("w8", self.obj_case("w8", g, funcs, script=[("new", 0), ("prog", 0, thrown, True), ("clone", 0, 1),
+                    ("prog", 1, [("callt", "G", ["B"], "A")], False), ("prog", 0, [("nul", "A"), ("nul", "B")], False),
+                    ("prog", 1, [("nul", "A"), ("call", "C", "G", ["A", "A"])], False), ("free", 0), ("purge", 1), ("free", 1)])))
+        # w9: a successful call first (its context is in the cache), then the failing call recycles it; a null receiver of
+        # fail() does not raise (the call runs); F's cache is untouched by G's failure
+        out.append(("w9", self.obj_case("w9", g, funcs, script=[("new", 0),
+                    ("prog", 0, [("new", "A", 1), ("call", "C", "G", ["A", "A"]), ("call", "D", "F", ["A", "C"]), ("callt", "G", ["A"], "B"),
+                                 ("new", "B", 2), ("callt", "G", ["C"], "B")], True),
+                    ("prog", 0, [("call", "D", "F", ["B", "B"]), ("nul", "A"), ("nul", "C")], False), ("free", 0)])))
         return out
 
     def case_timeout(self):
@@ -567,7 +602,6 @@ class C17(VmodCheck):
         mouts = (m.get("model") or "").split("|")
         msegs = (m.get("ev") or "").split("/") if "ev" in m else []
         leak = set(x for x in (m.get("leak") or "").split(",") if x)
-        kf = m.get("kf")
         inv = {}
         for p in (m.get("inv") or "").split(","):
             if "@" in p:
@@ -580,7 +614,7 @@ class C17(VmodCheck):
             self.samples.append({"case": c.model_line[:600], "impl": "/".join(l[4:] for l in logs)[:600], "model": (m.get("ev") or "")[:600]})
 
         def bad(what, iout="", model=""):
-            self.record_violation(what, c, iout or "/".join(l[4:] for l in logs)[:1500], {"model": model or (m.get("ev") or "")[:1500], "kf": kf}, stderr)
+            self.record_violation(what, c, iout or "/".join(l[4:] for l in logs)[:1500], {"model": model or (m.get("ev") or "")[:1500]}, stderr)
 
         if any("unmodelled" in o or "hazard" in o or "bad-op" in o for o in mouts):
             return bad("the model could not run the case: " + "|".join(mouts))
@@ -617,15 +651,13 @@ class C17(VmodCheck):
             for l in sg.split("~"):
                 if l.startswith("C "):
                     created.add(l.split(" ")[1])
-        leaked_in_impl = 0
+        if leak:
+            # no known-finding region any more (C17.createEnv_arg_throw_leaks_context is repaired): the model itself must
+            # destroy every object once every context is released
+            return bad("the model leaves %s undestroyed although every context was released" % ",".join(sorted(leak)))
         for o in sorted(created):
-            if o in leak:
-                # known-finding region: the object may never be destroyed (recorded defect) or be destroyed (specification)
-                if o not in ipos:
-                    leaked_in_impl += 1
-                continue
             if o not in mpos:
-                return bad("model neither destroys nor leaks %s" % o)
+                return bad("model never destroys %s" % o)
             if o not in ipos:
                 return bad("object %s is never destroyed although every context was released" % o)
             if ipos[o] < mpos[o]:
@@ -638,13 +670,8 @@ class C17(VmodCheck):
             if o not in created:
                 return bad("destroy of an object never created: " + o)
         nlive = int(live[5:].split(",")[0])
-        if nlive != leaked_in_impl:
-            return bad("module reports %d live objects at quiescence, log says %d" % (nlive, leaked_in_impl))
-        if kf:
-            if not self.known(kf):
-                return bad("leak region %s is not a listed known finding" % kf)
-            if leaked_in_impl:
-                self.hit(kf, c, "never destroyed: %d object(s)" % leaked_in_impl)
+        if nlive != 0:
+            return bad("module reports %d live objects at quiescence" % nlive)
 
     def replay(self, rep):
         return self.run()
